@@ -22,8 +22,13 @@ for n in sorted(os.listdir(os.path.join(V, "seeded"))):
     else:
         caught, how = ("n/a", res[len(n) + 2:][:80])
     if os.path.exists(os.path.join(d, "note.txt")):
-        caught = "n/a"
-        how = open(os.path.join(d, "note.txt")).read().strip().replace("\n", " ").replace("|", "/")
+        note = open(os.path.join(d, "note.txt")).read().strip().replace("\n", " ").replace("|", "/")
+        if note.startswith("caught-by:"):
+            caught = "missed by its own check, **caught by " + note[len("caught-by:"):].split("—")[0].strip() + "**"
+            how = note.split("—", 1)[1].strip() if "—" in note else note
+        else:
+            caught = "n/a"
+            how = note
     rows.append("| %s | %s | %s | %s |" % (n, summ, caught, how))
 table = "| seed | change (compiles, passes the existing tests) | quick check of its property | first reported class |\n|---|---|---|---|\n" + "\n".join(rows)
 p = os.path.join(V, "DESIGN.md")
